@@ -186,6 +186,8 @@ def check_uncompute(ctx: Ctx, replay_rule: bool = True):
             ctx.undecided(fi.short, f"gates_computed is rebuilt by filtering the recorded list with {tests}: outside the tables")
         else:
             ctx.check(tests[0] == f"{ws}[-1] not in self.marked_ancillas" and par2s == 0, "MP-rebuild", fi, "gates_computed = gates not replayed, original order", f"filter `{tests[0]}`, {par2s} reversals", f"gates_computed is rebuilt as the recorded gates with `{tests[0]}` ({par2s} reversal(s)): it must hold exactly the non-replayed gates in their original order", st[0])
+    elif not keep_app and isinstance(core2, (ast.List, ast.Tuple)) and not core2.elts:
+        ctx.fail("MP-rebuild", fi, "gates_computed = gates not replayed, original order", f"`{norm(st[0])[:60]}` empties the record after the pass: the gates that were NOT undone (they target qubits that are not marked yet) are forgotten, so an ancilla marked by a later expression has nothing to replay and is handed back to the free list still holding its value", st[0])
     elif not keep_app:
         ctx.undecided(fi.short, f"gates_computed is rebuilt from `{norm(core2)}`, which is not a list appended to in the replay loop: outside the tables")
     else:
